@@ -281,7 +281,8 @@ RULE_ADDENDA = {
     "C04": "Every input is also decoded into reused receivers (a fully populated value, and the decode of the valid packet the input was derived from): refusal must not depend on the receiver and every decoded field must come from this input.",
     "C05": "After an injected deadline expiry in the middle of a packet the connection must be closed; one that goes back to reading is the verdict stall-not-an-error.",
     "C11": "Command arguments include values that merely end in the <cr>/<CR> line-ending marker.",
-    "C12": "One request in three is sent on the session id of the request before it with the next client sequence number (the updates of a task), naming any user.",
+    "C12": "One request in three is sent on the session id of the request before it with the next client sequence number (the updates of a task), naming any user. One case in four also registers the syslog accounter on a unixgram socket owned by the harness (users with a SYSLOG accounter become accountable; the record must be queued on the socket when the reply arrives, exactly once, and decode to the request).",
+    "C18": "Every log call is also passed to the reference logger of cmds/server/log at a drawn level (10/20/30/31/100) writing to a buffer, which is searched for the tokens as well.",
     "C16": "The real-watcher sub-test also replaces the file atomically (rename over the path) and then edits it in place; if nothing is published the verdict is taken from the process' inotify watch list (/proc/self/fdinfo), not from the clock.",
     "C17": "One scripted packet in three makes its handler register a continuation, so that a session is still open when the connection ends.",
 }
